@@ -5,6 +5,7 @@
 #   * the TTL default (nni_atomic_set(&s->ttl, k)) and range (nni_copyin_int(.., lo, NNI_MAX_MAX_TTL ..)),
 #   * the hop-header limits of pair1_pipe_recv_cb (> k) and pair1_sock_send (>= k),
 #   * the error numbers the model uses,
+#   * which variant of set_send_buf_len each file has (PAIRx_RESIZE_ADMITS_FIXED: waiters admitted after a resize),
 #   * which variant of pipe_stop's send-pollable handling each file has
 #     (PAIRx_STOP_WRITABLE_FIXED: the clear is guarded by nni_lmq_full(&s->wmq)).
 _P0 = "src/sp/protocol/pair0/pair.c"
@@ -65,6 +66,16 @@ for _tag, _txt, _path in (("PAIR0", _p0, _P0), ("PAIR1", _p1, _P1)):
     _st3 = re.search(_X + r"_send_sched\(p->pair,\s*p\);", _txt)
     extra_text.append("Definition C08_%s_STALE_FIXED : bool := %s.  (* %s: send_sched(s, p) and the rd_ready branch of pipe_recv_cb act only for the current peer *)"
                       % (_tag, "true" if (_st1 and _st2 and _st3) else "false", _path))
+    # the resize repair (fix 7c956d7): set_send_buf_len moves the blocked senders into the grown queue, in order.
+    # Pinned form: nni_lmq_resize(&s->wmq ..) directly followed by the pollable logic.
+    _rz_fixed = re.search(r"rv\s*=\s*nni_lmq_resize\(&s->wmq,\s*\(size_t\)\s*val\);\s*(?://[^\n]*\n\s*)*while\s*\(!nni_lmq_full\(&s->wmq\)\)\s*\{"
+                          r"[^}]*?nni_list_first\(&s->waq\)\)\s*==\s*NULL\)\s*\{\s*break;\s*\}\s*nni_aio_list_remove\(a\);[^}]*?nni_lmq_put\(&s->wmq,\s*m\);"
+                          r"\s*nni_aio_set_msg\(a,\s*NULL\);\s*nni_aio_finish\(a,\s*0,\s*l\);\s*\}\s*(?://[^\n]*\n\s*)*if\s*\(!nni_lmq_full\(&s->wmq\)\)\s*\{\s*nni_pollable_raise\(&s->writable\);", _txt, re.S)
+    _rz_pinned = re.search(r"rv\s*=\s*nni_lmq_resize\(&s->wmq,\s*\(size_t\)\s*val\);\s*(?://[^\n]*\n\s*)*if\s*\(!nni_lmq_full\(&s->wmq\)\)\s*\{\s*nni_pollable_raise\(&s->writable\);", _txt)
+    if not _rz_fixed and not _rz_pinned:
+        missing.append("set_send_buf_len after nni_lmq_resize (neither the pinned nor the repaired form) in %s" % _path)
+    extra_text.append("Definition C08_%s_RESIZE_ADMITS_FIXED : bool := %s.  (* %s set_send_buf_len: blocked senders move into the resized queue, in order *)"
+                      % (_tag, "true" if _rz_fixed else "false", _path))
     # shape lints: the branches the model mirrors
     _g(r"if\s*\(s->p\s*!=\s*NULL\)\s*\{[^}]*return\s*\(NNG_EBUSY\);", _txt, "pipe_start: s->p != NULL => NNG_EBUSY", _path)
     _g(r"if\s*\(s->p\s*==\s*p\)\s*\{\s*s->p\s*=\s*NULL;", _txt, "pipe_stop: s->p == p => s->p = NULL", _path)
